@@ -4,9 +4,9 @@ package main
 
 import (
 	"fmt"
-	"os"
 	"go/token"
 	"go/types"
+	"os"
 	"sort"
 	"strings"
 
@@ -727,6 +727,9 @@ func (e *Engine) evalPureInvoke(c *evalCtx, recv Val, m *types.Func, args []Val)
 // havocStream forgets a ghost stream's cursor; for writers also the tokens at and above the old write cursor
 // (through fan-out tables).
 func (e *Engine) havocStream(st *State, s *Term, writer bool) {
+	if s == discardRef {
+		return
+	}
 	if mw, ok := st.ghost["$mw/"+s.String()]; ok {
 		for _, sink := range mw.L {
 			e.havocStream(st, e.resolveAlias(st, sink), writer)
